@@ -231,6 +231,9 @@ def localise(args, jpath, ea, eb, oa, ob):
             return ("C19:filters.h:collapse-totals-map",
                     "reg --collapse --depth N emits the rows of one transaction in account_t* address order "
                     "(filters.h:431 std::map<account_t*,value_t> totals, walked at filters.cc:440)")
+    if cmd in LISTING and oa["err"] == ob["err"] and oa["rc"] == ob["rc"] \
+            and sorted(oa["out"].split(b"\n")) == sorted(ob["out"].split(b"\n")):
+        return LISTING[cmd]
     if cmd in ("prices", "pricedb"):
         if sorted(oa["out"].split(b"\n")) == sorted(ob["out"].split(b"\n")) and oa["err"] == ob["err"]:
             return ("C19:iterators.cc:posts_commodities-set",
@@ -519,26 +522,49 @@ def lot_heavy_journal(rng, with_exprs=False):
         add(rng.choice(prices + [None]), rng.choice(dates + [None]), rng.choice([None, None, "t", "u"]),
             rng.choice([None, "amount * 2", "amount * 3"]) if with_exprs else None)
     rng.shuffle(lots)
-    lines = ["%s buy lots" % jgen.date_text(jgen.day_of(2020, 4, 1))]
-    for i, l in enumerate(lots):
-        q = rng.randint(1, 9)
-        l["q"] = q
-        a = "%d %s" % (q, sym)
-        if l["price"] is not None:
-            a += " {$%d.00}" % l["price"]
-        if l["date"] is not None:
-            a += " [%s]" % jgen.date_text(l["date"])
-        if l["tag"] is not None:
-            a += " (%s)" % l["tag"]
-        if l["expr"] is not None:
-            a += " ((%s))" % l["expr"]
-        lines.append("    Assets:Broker   %s" % a)
-    lines += ["    Equity:Opening", "", "%s other" % jgen.date_text(jgen.day_of(2020, 5, 1)), "    Assets:Cash   10.00 EUR", "    Income:Job", ""]
+    # spread over 1-3 transactions with different payees; some postings carry tags (payees / tags reports)
+    ngroups = rng.randint(1, 3)
+    lines = []
+    for gi in range(ngroups):
+        part = lots[gi::ngroups]
+        if not part:
+            continue
+        lines.append("%s buy %s" % (jgen.date_text(jgen.day_of(2020, 4, 1) + gi), ["one", "two", "three"][gi]))
+        for l in part:
+            q = rng.randint(1, 9)
+            l["q"] = q
+            a = "%d %s" % (q, sym)
+            if l["price"] is not None:
+                a += " {$%d.00}" % l["price"]
+            if l["date"] is not None:
+                a += " [%s]" % jgen.date_text(l["date"])
+            if l["tag"] is not None:
+                a += " (%s)" % l["tag"]
+            if l["expr"] is not None:
+                a += " ((%s))" % l["expr"]
+            note = rng.choice(["", "", "  ; :lot:", "  ; :held:lot:", "  ; kind: %s" % rng.choice(["x", "y"])])
+            lines.append("    Assets:Broker   %s%s" % (a, note))
+        lines += ["    Equity:Opening", ""]
+    lines += ["%s other" % jgen.date_text(jgen.day_of(2020, 5, 1)), "    Assets:Cash   10.00 EUR", "    Income:Job", ""]
     return "\n".join(lines) + "\n", lots, sym
 
 
 LOT_COMMANDS = ["bal --lots", "bal --lot-prices", "bal --lot-dates --lot-notes", "reg --lots", "reg --lots --wide", "print", "xml",
-                "equity --lots", "bal --lots --flat", "bal"]
+                "equity --lots", "bal --lots --flat", "bal",
+                # listing commands (maps keyed by a pointer with a comparator, output.h) with and without the lot options
+                "commodities", "commodities --lots", "commodities --lot-prices", "commodities --lots --count", "accounts", "accounts --lots",
+                "accounts --count", "payees", "payees --lots", "tags", "tags --lots", "reg --by-payee --lots", "reg --group-by payee --lots",
+                "reg --group-by commodity --lots", "bal --group-by commodity --lots", "reg --subtotal --lots", "reg --collapse --lots",
+                "reg --collapse --depth 1 --lots", "prices", "pricedb", "csv --lots", "emacs"]
+LISTING = {"commodities": ("C19:commodity.h:commodity_compare",
+                           "the `commodities` report lists entries with the same symbol (the lots of one commodity) in a different order: "
+                           "its std::map<commodity_t*, size_t, commodity_compare> (output.h:227) falls back to heap-address order, i.e. "
+                           "commodity_compare (commodity.h:294) does not compare by symbol only"),
+           "accounts": ("C19:account.h:account_compare",
+                        "the `accounts` report lists the same accounts in a different order: std::map<account_t*, size_t, account_compare> "
+                        "(output.h:146) is not ordered by full name only"),
+           "payees": ("C19:output.h:payees-map", "the `payees` report lists the same payees in a different order (output.h:172)"),
+           "tags": ("C19:output.h:tags-map", "the `tags` report lists the same tags in a different order (output.h:198)")}
 
 LOT_LINE = re.compile(r"^\s*(-?[0-9][0-9,.]*) (\S+)(?: \{\$([0-9.,]+)\})?(?: \[(\d{4}/\d\d/\d\d)\])?(?: \(([^()]*)\))?(?: \(\((.*)\)\))?\s*$")
 
@@ -604,10 +630,12 @@ COMMANDS = [
     "bal -V", "bal -B", "reg -V", "reg -G", "reg --sort amount", "bal --sort total", "reg --related", "reg --average",
     "bal --lots", "cleared", "reg --group-by payee", "bal --pivot payee", "bal --average-lot-prices", "reg --group-by commodity",
     "bal -X EUR,AAA", "reg --exchange EUR", "bal --lot-dates", "reg --lots --wide", "equity --lots", "bal --unround", "reg --deviation",
+    "commodities --lots", "accounts --lots", "payees --lots", "tags", "reg --by-payee --lots", "reg --group-by payee --lots",
 ]
 QUICK_COMMANDS = [
     "bal", "bal --flat", "reg --empty --wide", "reg --collapse", "reg --collapse --depth 1", "reg --subtotal", "print", "equity",
-    "xml", "csv", "emacs", "prices", "stats", "bal -V", "reg --sort amount", "bal --lots", "reg -M", "commodities", "bal --average-lot-prices",
+    "xml", "csv", "emacs", "prices", "stats", "bal -V", "reg --sort amount", "bal --lots", "reg -M", "commodities", "bal --average-lot-prices", "commodities --lots",
+    "accounts", "payees", "reg --by-payee",
 ]
 
 NAMES = ["AAA", "EUR", "USD", "MMM", "ZZZ", "QQ", "KK", "BTC"]
